@@ -412,6 +412,15 @@ func (s *rsession) do(op *rop) bool {
 		}
 		return true
 	}
+	if !s.refDone && s.initV == nil && !s.softRef {
+		if norm[1] == norm[2] {
+			s.ref = append(s.ref, norm[1])
+		} else {
+			s.ref = append(s.ref, "?")
+			s.refQ = idx
+			s.refDone = true
+		}
+	}
 	if norm[1] != norm[2] {
 		s.o.count("unspecified_" + cls)
 		if os.Getenv("REFLECT_DEBUG") != "" {
@@ -498,6 +507,13 @@ func (s *rsession) finish() {
 		return
 	}
 	s.getters()
+	if len(s.ref) > 0 {
+		q := -1
+		if s.refDone {
+			q = s.refQ
+		}
+		s.o.kase("HISTREF", []string{s.si.id, strconv.Itoa(s.mi.idx), strings.Join(s.ops[:len(s.ref)], ";"), strconv.Itoa(q)}, strings.Join(s.ref, ";"))
+	}
 	if s.initV != nil {
 		s.o.kase("HISTV", []string{s.si.id, strconv.Itoa(s.mi.idx), s.initV.String(), strings.Join(s.ops, ";")}, strings.Join(s.raw, ";"))
 	} else {
